@@ -202,6 +202,10 @@ func concRounds(req concReq) int {
 				sz, e := atomic.LoadInt64(&sizes[i]), atomic.LoadInt64(&errsV[i])
 				metrics.RecordTokenization(time.Duration(sz), int(sz), errOf(e))
 				monitor.RecordTokenizerCall(time.Duration(sz), int(sz), errOf(e))
+				metrics.RecordParse(time.Duration(sz), int(sz%7), errOf(e))
+				monitor.RecordParserCall(time.Duration(sz), errOf(e))
+				metrics.RecordPoolGet(e != 0)
+				metrics.RecordPoolPut()
 				atomic.AddInt64(&done, 1)
 			}
 		}(i)
@@ -214,7 +218,7 @@ func concRounds(req concReq) int {
 	for r := int64(1); r <= int64(rounds); r++ {
 		metrics.Reset()
 		monitor.Reset()
-		var sum, nerr int64
+		var sum, nerr, stm int64
 		mn, mx := int64(-1), int64(0)
 		for i := 0; i < n; i++ {
 			var sz int64
@@ -230,6 +234,7 @@ func concRounds(req concReq) int {
 			atomic.StoreInt64(&sizes[i], sz)
 			atomic.StoreInt64(&errsV[i], e)
 			sum += sz
+			stm += sz % 7
 			if e != 0 {
 				nerr++
 			}
@@ -250,9 +255,12 @@ func concRounds(req concReq) int {
 		got := statsProjection()
 		want := map[string]int64{
 			"metrics.tokenizeOperations": int64(n), "metrics.tokenizeErrors": nerr, "metrics.totalQueryBytes": sum,
-			"metrics.minQuerySize": mn, "metrics.maxQuerySize": mx, "metrics.errorsByType": nerr,
+			"metrics.minQuerySize": mn, "metrics.maxQuerySize": mx, "metrics.errorsByType": 2 * nerr,
+			"metrics.parseOperations": int64(n), "metrics.parseErrors": nerr, "metrics.statementsCreated": stm,
+			"metrics.poolGets": int64(n), "metrics.poolPuts": int64(n),
 			"monitor.TokenizerCalls": int64(n), "monitor.TokensProcessed": sum, "monitor.TokenizerErrors": nerr,
-			"monitor.TokenizerDuration": sum,
+			"monitor.TokenizerDuration": sum, "monitor.ParserCalls": int64(n), "monitor.ParserErrors": nerr,
+			"monitor.StatementsProcessed": int64(n) - nerr, "monitor.ParserDuration": sum,
 		}
 		var bad []string
 		for k, w := range want {
